@@ -47,15 +47,30 @@ def cut_set_for(P):
     """safe public functions: analysed as roots of their own, cut when called from other roots"""
     k = id(P)
     if k not in _CUT:
-        def substantial(inst):
-            # trivial accessors (straight-line code without crate-local calls) are inlined instead
-            if inst.natural_loops():
-                return True
-            for b, t in inst.calls():
-                c = t['callee']
-                if c.get('krate') == 'memchr' or 'indirect' in c:
-                    return True
-            return False
+        memo = {}
+
+        def substantial(inst, depth=0):
+            """has loops, indirect calls, or (transitively) calls something that has; trivial
+            constructors/accessors (straight-line code over straight-line helpers) are inlined instead"""
+            if inst.key in memo:
+                return memo[inst.key]
+            memo[inst.key] = True       # recursion guard
+            r = False
+            if inst.natural_loops() or depth > 4:
+                r = True
+            else:
+                for b, t in inst.calls():
+                    c = t['callee']
+                    if 'indirect' in c:
+                        r = True
+                        break
+                    if c.get('krate') == 'memchr':
+                        ci = P.instances.get(c.get('inst'))
+                        if ci is None or not ci.has_body or substantial(ci, depth + 1):
+                            r = True
+                            break
+            memo[inst.key] = r
+            return r
         _CUT[k] = frozenset(r for r in public_roots(P) if not P.instances[r].is_unsafe_fn
                             and P.instances[r].j.get('def_kind') in ('Fn', 'AssocFn') and substantial(P.instances[r]))
     return _CUT[k]
